@@ -146,24 +146,15 @@ def expectedTarget (proxy : Bool) (script : List String) : Option (Bytes × Byte
   if w.hostOverride || w.method == "CONNECT".toUTF8.toList || !Uri.containsSub Gen.Str.strColonSlashSlash url then none
   let u := Uri.parse [] url
   let qa := w.qa.getD []
-  let u' : Uri.URI := if w.dpn then u else u
   let target :=
-    if proxy then u'.fullURI qa
+    if proxy then u.fullURI qa
     else if w.dpn then
-      u.pathOriginal ++ (if !qa.isEmpty then 63 :: appendArgs qa else if !u.query.isEmpty then 63 :: u.query else [])
+      -- `RequestURI()` with `DisablePathNormalizing`: `PathOriginal()` verbatim, "/" when it is empty (/repo bc3332b)
+      (if u.pathOriginal.isEmpty then [47] else u.pathOriginal) ++ (if !qa.isEmpty then 63 :: appendArgs qa else if !u.query.isEmpty then 63 :: u.query else [])
     else u.requestURI qa
   pure (target, u.host)
 
-/-- known finding: with `DisablePathNormalizing` the target is `PathOriginal()` verbatim, which is empty for a URL
-whose authority is followed by `?query` directly -/
-def dpnEmptyPath (script : List String) : Bool :=
-  match intentOf script with
-  | some w => w.dpn && (match w.url with
-      | some u => (Uri.parse [] u).pathOriginal.isEmpty
-      | none => false)
-  | none => false
-
-def reqWriteHandle (expect : Option (Bytes × Bytes)) (script impl : List String) (bodyLost : Bool := false) : Option Result := do
+def reqWriteHandle (expect : Option (Bytes × Bytes)) (script impl : List String) : Option Result := do
   match impl with
   | wire :: err :: m :: u :: ua :: ho :: ct :: ndct :: clb :: cc :: nh :: t =>
     let (h, t) ← H1Spec.takePairs nh.toNat! t
@@ -184,8 +175,6 @@ def reqWriteHandle (expect : Option (Bytes × Bytes)) (script impl : List String
           -- body bytes the application asked to send, and their encoding on the wire
           let (intended, bodyWire) : Bytes × Bytes := match w.stream with
             | some (d, pieces) =>
-              -- `bodyLost`: the stream was consumed by an earlier attempt of the same `Do` (see `seqHandle`)
-              if bodyLost then ((if d ≥ 0 then pieces.flatten.take d.toNat else pieces.flatten), []) else
               if d ≥ 0 then (pieces.flatten.take d.toNat, pieces.flatten.take d.toNat)
               else (pieces.flatten, H1.Resp.chunkedWire pieces w.trailers)
             | none =>
@@ -348,38 +337,33 @@ def seqHandle (flags : String) (maxBody n : Nat) (rest impl : List String) : Opt
   let steps ← parseSteps n rest
   let impls ← parseSeqImpl n impl
   let cfg : Exchange.Cfg := { disableNorm := flags.contains 'n', maxBody }
-  let init : Exchange.St × List String × Bool × String × String × Bool × String × Bool × Bool := ({}, [], true, "", "", false, "", true, false)
-  let (_, out, spec, note, tag, _, cls, _, _) ← (steps.zip impls).foldlM (fun acc (si : SeqStep × SeqImpl) => do
-    let (st, out, spec, note, tag, prevFailed, cls, conforming, sticky) := acc
+  let init : Exchange.St × List String × Bool × String × String × Bool × String × Bool × Bool × Bool := ({}, [], true, "", "", false, "", true, false, false)
+  let (_, out, spec, note, tag, _, cls, _, _, _) ← (steps.zip impls).foldlM (fun acc (si : SeqStep × SeqImpl) => do
+    let (st, out, spec, note, tag, prevFailed, cls, conforming, sticky, wanted) := acc
     let (s, i) := si
     let method := scriptMethod s.script
     let isStream := s.script.any (fun t => t.startsWith "BS:")
     let idem := ["GET", "HEAD", "PUT", "DELETE", "OPTIONS", "TRACE"].any (fun m => m.toUTF8.toList == method)
-    -- `DefaultRetryIf` refuses requests whose body is a stream, but it is asked AFTER the first attempt, whose
-    -- `req.Write` has closed and dropped the stream (`CloseBodyStream`): `IsBodyStream()` is false by then.  So an
-    -- idempotent request is retried whatever its body was, and the second attempt has no body left to send.
-    let willRetry := match st.idle with
-      | some c => idem && c.pending.isEmpty && (c.peerClosed || (s.resp.isEmpty && s.close))
-      | none => false
-    let bodyLost := willRetry && isStream
     -- request side
-    let rr ← reqWriteHandle (expectedTarget false s.script) s.script i.req bodyLost
+    let rr ← reqWriteHandle (expectedTarget false s.script) s.script i.req
     let cc := i.req.getD 9 "0" == "1"
-    -- flag `r`: ONE Response object for all exchanges, never reset by the application.  `doNonNilReqResp` backs up
-    -- `resp.SkipBody` around its own `resp.Reset()` ("in case it was set explicitly") - but the flag it finds set
-    -- may be the one IT set for an earlier HEAD request, so from then on every body is skipped (and left unread).
     let isHead := method == "HEAD".toUTF8.toList
-    let skipBody := isHead || (flags.contains 'r' && sticky)
-    let rq : Exchange.Req := { skipBody, retryable := idem, connClose := cc }
+    -- `resp.SkipBody` as `Do` finds it: set by the application for this call (`SB`), or still set on a Response
+    -- object that is used for the whole sequence (flag `r`): by the application earlier, or the client's own HEAD
+    -- mark, if `Do` left it behind (`Exchange.skipAfterDo`: since /repo 07a471c it never does, so `sticky` = `wanted`;
+    -- both are kept: `sticky` is the model's prediction of the code, `wanted` is the spec's view)
+    let sb := s.script.contains "SB"
+    let appSkip := sb || (flags.contains 'r' && sticky)
+    -- what the application asked for (the spec's view): no body for HEAD, and none when IT set the flag
+    let wanted' := sb || (flags.contains 'r' && wanted)
+    -- an idempotent method is retried after `ErrBadPoolConn` unless its body is a stream (noted before the first attempt)
+    let rq : Exchange.Req := { skipBody := isHead, retryable := idem && !isStream, connClose := cc, appSkip }
     -- the peer answers when it has one complete request; bytes that are no complete request get no answer
     let complete := match (hx (rr.out.headD "-")).bind Spec.Http.decodeOne with
       | some (_, []) => true
       | _ => false
     let sv : Exchange.Srv := if complete then { resp := s.resp, closeAfter := s.close } else { resp := [], closeAfter := false }
-    let cls' := if !complete && s.reuse == "keep" then "reuse-stale-framing"
-                else if bodyLost && !rr.spec then "stream-body-lost-on-retry"
-                else if dpnEmptyPath s.script && !rr.spec then "dpn-empty-path-target"
-                else if skipBody && !isHead then "skipbody-sticky-on-response-reuse" else cls
+    let cls' := if !complete && s.reuse == "keep" then "reuse-stale-framing" else cls
     let (st', o) := Exchange.exchange cfg st rq sv
     -- response side: the spec looks at THIS exchange's response bytes only
     let e := if s.close then End.eof else End.stall
@@ -387,7 +371,7 @@ def seqHandle (flags : String) (maxBody n : Nat) (rest impl : List String) : Opt
       if !complete then (true, "no complete request")
       else if !conforming then (true, "the peer did not conform earlier in the sequence")
       else if o == .badPool && i.res == ["err:badpool"] then (true, "pooled connection closed by the peer, request not repeatable")
-      else specCheck isHead e maxBody s.resp (if i.res.headD "" == "ok" then i.res ++ ["0"] else i.res)
+      else specCheck (isHead || wanted') e maxBody s.resp (if i.res.headD "" == "ok" then i.res ++ ["0"] else i.res)
     let spec' := spec && rr.spec && sok
     let note' := if !note.isEmpty then note else if !rr.spec then "request: " ++ rr.specNote else if !sok then "response: " ++ snote else ""
     let t := (s.reuse.take 1).toString ++ (if o.isOk then "k" else (outcomeTokens o).headD "?") ++ (if prevFailed then "!" else "") ++
@@ -395,7 +379,7 @@ def seqHandle (flags : String) (maxBody n : Nat) (rest impl : List String) : Opt
     pure (st', out ++ ["X", toString st'.dials, toString rr.out.length] ++ rr.out ++
                 [toString (outcomeTokens o).length] ++ outcomeTokens o,
           spec', note', (if (tag.splitOn ",").contains t then tag else tag ++ (if tag.isEmpty then "" else ",") ++ t), !o.isOk, cls',
-          conforming && complete && cleanResp isHead e s.resp && !(skipBody && !isHead), skipBody)) init
+          conforming && complete && cleanResp isHead e s.resp, Exchange.skipAfterDo cfg st rq sv, wanted')) init
   pure { out, spec, cls, specNote := if note.isEmpty then "every request arrives as given and every conforming response comes back as sent" else note,
          tag := "seq:" ++ flags ++ (if maxBody > 0 then "L" else "") ++ ":" ++ ",".intercalate ((tag.splitOn ",").take 3) }
 
